@@ -188,4 +188,40 @@ Section WithDigest.
     symmetry in Hr.
     destruct (dunder_split_unique _ _ _ _ D1 U1 D2 U2 Hr) as [Ep _]. exact Ep.
   Qed.
+  (* ---------------------------------------------------------------- SQLite compares table names without ASCII case *)
+  Lemma map_fold_fixed : forall s, forallb (fun c => fold_ascii c =? c) s = true -> map fold_ascii s = s.
+  Proof.
+    induction s as [|c s IH]; intro Hs; [reflexivity|]. cbn [forallb] in Hs. apply andb_true_iff in Hs as [Hc Hs].
+    apply N.eqb_eq in Hc. cbn [map]. rewrite Hc, (IH Hs). reflexivity.
+  Qed.
+
+  Lemma map_fold_hex : forall s, forallb lower_hex s = true -> map fold_ascii s = s.
+  Proof.
+    intros s Hs. apply map_fold_fixed. revert Hs. apply forallb_impl. intros c Hc. apply N.eqb_eq, fold_hex, Hc.
+  Qed.
+
+  Definition vocab_lower_ok : bool :=
+    forallb (fun c => fold_ascii c =? c) gen_hash_sep &&
+    forallb (fun ct => forallb (fun c => fold_ascii c =? c) (fst ct ++ snd ct)) vocab_pairs.
+  Lemma vocab_lower_ok_true : vocab_lower_ok = true.
+  Proof. vm_compute. reflexivity. Qed.
+
+  Theorem table_name_inj_nocase : forall a b ca ta cb tb,
+    In (ca, ta) vocab_pairs -> In (cb, tb) vocab_pairs ->
+    map fold_ascii (table_name H a ca ta) = map fold_ascii (table_name H b cb tb) ->
+    map fold_ascii (sanitize a) = map fold_ascii (sanitize b) /\ hash_part H a = hash_part H b /\ ca = cb /\ ta = tb.
+  Proof.
+    intros a b ca ta cb tb Ha Hb E. rewrite !table_name_shape in E. rewrite !map_app in E.
+    pose proof vocab_lower_ok_true as V. unfold vocab_lower_ok in V. apply andb_true_iff in V as [Vs V].
+    rewrite forallb_forall in V. pose proof (V _ Ha) as Va. pose proof (V _ Hb) as Vb. cbn [fst snd] in Va, Vb.
+    cbn [map] in E. change (fold_ascii underscore) with underscore in E.
+    rewrite (map_fold_fixed _ Va), (map_fold_fixed _ Vb) in E.
+    destruct (vocab_shape _ _ Ha) as [D1 U1]. destruct (vocab_shape _ _ Hb) as [D2 U2].
+    destruct (dunder_split_unique _ _ _ _ D1 U1 D2 U2 E) as [Ep Er].
+    destruct (vocab_distinct _ _ _ _ Ha Hb Er) as [Ec Et].
+    unfold prefix in Ep. rewrite !map_app in Ep.
+    rewrite !(map_fold_hex _ (hash_part_hex H H_hex _)), (map_fold_fixed _ Vs) in Ep.
+    rewrite !app_assoc in Ep. apply app_eq_len_tail in Ep; [|rewrite !(hash_part_length H H_len); reflexivity].
+    destruct Ep as [E1 E2]. apply app_inv_tail in E1. repeat split; assumption.
+  Qed.
 End WithDigest.
